@@ -223,7 +223,7 @@ def parse_api_out(line):
     for part in line[3:].split(";"):
         part = part.strip()
         name, _, rest = part.partition(" ")
-        if name in ("tb", "ecs", "buf"):
+        if name in ("tb", "ecs", "buf", "lz"):
             res[name] = rest
             continue
         res[name] = None if rest.strip() == "-" else parse_groups(rest)
